@@ -231,6 +231,37 @@ func programs() []program {
 				check: func(m *compile.Module) string {
 					return wantInt(constVal(m), l.v, tw.bits, "const c (= reference to an i64 constant)")
 				}})
+			// the same number reaching the integer type through an enum item (enum values are 32-bit)
+			if inRange(l.v, 32) {
+				out = append(out, program{Kind: "const-from-enum-item-" + tw.name, Lit: l.text, Src: fmt.Sprintf("enum E { A = %s }\nconst %s c = E.A", l.text, tw.name),
+					check: func(m *compile.Module) string { return wantInt(constVal(m), l.v, tw.bits, "const c") }})
+				out = append(out, program{Kind: "const-typedef-from-enum-item-" + tw.name, Lit: l.text, Src: fmt.Sprintf("enum E { Z = 0, A = %s }\ntypedef %s T\nconst T c = E.A", l.text, tw.name),
+					check: func(m *compile.Module) string { return wantInt(constVal(m), l.v, tw.bits, "const c") }})
+				out = append(out, program{Kind: "default-from-enum-item-" + tw.name, Lit: l.text, Src: fmt.Sprintf("enum E { A = %s }\nstruct S { 1: optional %s f = E.A }", l.text, tw.name),
+					check: func(m *compile.Module) string {
+						s := structOf(m, "S")
+						if s == nil {
+							return "S missing"
+						}
+						return wantInt(s.Fields[0].Default, l.v, tw.bits, "default of f")
+					}})
+				out = append(out, program{Kind: "list-elem-from-enum-item-" + tw.name, Lit: l.text, Src: fmt.Sprintf("enum E { A = %s }\nconst list<%s> c = [E.A]", l.text, tw.name),
+					check: func(m *compile.Module) string {
+						cl, ok := constVal(m).(compile.ConstantList)
+						if !ok || len(cl) != 1 {
+							return fmt.Sprintf("unexpected %T", constVal(m))
+						}
+						return wantInt(cl[0], l.v, tw.bits, "list element")
+					}})
+				out = append(out, program{Kind: "map-key-from-enum-item-" + tw.name, Lit: l.text, Src: fmt.Sprintf("enum E { A = %s }\nconst map<%s, string> c = {E.A: \"x\"}", l.text, tw.name),
+					check: func(m *compile.Module) string {
+						cm, ok := constVal(m).(compile.ConstantMap)
+						if !ok || len(cm) != 1 {
+							return fmt.Sprintf("unexpected %T", constVal(m))
+						}
+						return wantInt(cm[0].Key, l.v, tw.bits, "map key")
+					}})
+			}
 			out = append(out, program{Kind: "default-" + tw.name, Lit: l.text, Src: fmt.Sprintf("struct S { 1: optional %s f = %s }", tw.name, l.text),
 				check: func(m *compile.Module) string {
 					s := structOf(m, "S")
